@@ -266,7 +266,16 @@ func c02(run *core.Run, replay string) {
 	}
 	core.ParallelDo(len(cases), 0, func(i int) {
 		c := cases[i]
-		k, d, ok := runCorruptCase(c)
+		if core.Hangs() >= 3 {
+			return
+		}
+		g, returned := guarded(func() kd { k, d, ok := runCorruptCase(c); return kd{k, d, ok} })
+		if !returned {
+			run.Eval(1)
+			run.Violate("C02 hang", fmt.Sprintf("[%s jobs=%d] %v: reading the damaged stream never returned (60 s, then 180 s)", c.R.Name, c.Jobs, c.Muts), c)
+			return
+		}
+		k, d, ok := g.k, g.d, g.ok
 		if !ok {
 			run.Count("mutation_without_effect_or_unbuilt", 1)
 			return
